@@ -34,6 +34,7 @@ func runC15(s *core.Sim, tier string) RunInfo {
 			Sample: map[string]any{"trust_range": simhdr.Cfg.TrustRange, "bad_epochs": len(simhdr.Cfg.BadEpoch), "rounds": hist}}
 	}
 	defer w.teardown()
+	w.configureDisk()
 	if err := w.OpenStore(store.Parameters{WriteBatchSize: core.Pick(s.Tape, "batch", sizeKnob), StoreCacheSize: 64, IndexCacheSize: 64}); err != nil {
 		s.Aborted = "store start: " + err.Error()
 		return info()
@@ -117,6 +118,11 @@ func runC15(s *core.Sim, tier string) RunInfo {
 		}
 		bound := int(D)*(bits.Len64(D)+2) + 2
 		budget := time.Duration(bound+10)*time.Millisecond*2 + time.Minute
+		if w.Disk.Park {
+			// every promoted intermediate is appended to a Store whose disk stalls now and then:
+			// virtual time is free, the request bound is what limits the search
+			budget += time.Duration(bound+10) * 3 * time.Second
+		}
 		var err error
 		t, fin := s.Do(fmt.Sprintf("candidate-%s", kind), budget, func() {
 			c, cancel := context.WithTimeout(ctx, budget)
@@ -175,6 +181,7 @@ func runC15(s *core.Sim, tier string) RunInfo {
 			_ = w.Sy.SyncWait(c)
 		})
 		s.Settle(31*time.Minute, t2)
+		w.waitSyncIdle(30 * time.Minute)
 		w.checkStoreIsHonestChain(fmt.Sprintf("after round %d", r), true)
 	}
 	return info()
